@@ -132,6 +132,24 @@ def gen_requests(tier, rng, kinds=KINDS, endpoints=None, n_random=None, avoid_cr
                             l = req_line(variants[i % 2], kind, auth, IDS[i % 3], secret, url, defred, a1, a2, a3, scopes, extras)
                             if l:
                                 out.append((l, "product/" + kind))
+    # extra parameters NAMED like protocol parameters: the library sends them as well (after its own), it never
+    # drops, merges or reorders either side
+    colliding = [[("grant_type", "password")], [("scope", "admin")], [("code", "c2"), ("redirect_uri", "https://evil.example/")],
+                 [("token", "t2"), ("token_type_hint", "h2")], [("code_verifier", "v2"), ("refresh_token", "r2"), ("device_code", "d2")],
+                 [("username", "u2"), ("password", "p2")], [("scope", ""), ("scope", "x y")], [("client_id", "evil")], [("client_secret", "evil")],
+                 [("client_id", "aaa"), ("client_secret", "bbb")], [("Grant_Type", "x"), ("SCOPE", "y")]]
+    for kind in kinds:
+        eps = endpoints or (REVOKE_ENDPOINTS if kind == "revoke" else eps_default)
+        for auth in ("B", "R"):
+            for secret in (None, "bbb"):
+                for extras in colliding:
+                    if avoid_cred_extras and any(k in ("client_id", "client_secret") for k, _ in extras):
+                        continue
+                    i += 1
+                    a1, a2, a3 = kind_args(kind, rng, STRINGS[:8])
+                    l = req_line(variants[i % 2], kind, auth, "aaa", secret, eps[0], "https://client/cb" if i % 3 == 0 else None, a1, a2, a3, SCOPES[i % 3], extras)
+                    if l:
+                        out.append((l, "colliding-extras/" + kind))
     # every printable ASCII character on its own, as the only special character of id / secret /
     # a value / an extra (a fast path keyed on a character class shows up only this way)
     for code in range(0x20, 0x7F):
@@ -192,7 +210,7 @@ def auth_ops(rng, strings):
         elif k == 1:
             ops.append("SS:" + C.tlist([s() for _ in range(rng.randint(0, 3))]))
         elif k == 2:
-            ops.append("E:%s:%s" % (C.tb(rng.choice(["resource", "audience", s()])), C.tb(s())))
+            ops.append("E:%s:%s" % (C.tb(rng.choice(["resource", "audience", s(), s(), "response_type", "client_id", "state", "scope", "redirect_uri", "code_challenge", "code_challenge_method", "State"])), C.tb(s())))
         elif k == 3:
             ops.append("I")
         elif k == 4:
